@@ -89,7 +89,20 @@ structure FNode (ι α : Type) where
   nested : Bool := false
 
 abbrev FKB (ι α : Type) := ι → FNode ι α
-abbrev FState (ι α : Type) := ι → Table α
+
+/-- the first-order state: one table per formula, kept as a finite association list (a formula
+without entry has the empty table). A data structure rather than a function, so that the
+executable model never re-evaluates closures. -/
+structure FState (ι α : Type) where
+  tabs : List (ι × Table α) := []
+
+def FState.get (s : FState ι α) (i : ι) : Table α :=
+  match s.tabs.find? (fun p => decide (p.1 = i)) with
+  | some p => p.2
+  | none => []
+
+def FState.set (s : FState ι α) (i : ι) (t : Table α) : FState ι α :=
+  ⟨(i, t) :: s.tabs.filter (fun p => !decide (p.1 = i))⟩
 
 /-! ### grounding management -/
 
@@ -156,7 +169,7 @@ def numVars (n : FNode ι α) : Nat := (dedup n.opmap.flatten).length
 
 /-- create the given groundings (at world defaults) in the given formulae -/
 def addAll (kb : FKB ι α) (s : FState ι α) (pairs : List (ι × List Gr)) : FState ι α :=
-  pairs.foldl (fun s p => Function.update s p.1 (Table.addg (kb p.1).world (s p.1) p.2)) s
+  pairs.foldl (fun s p => s.set p.1 (Table.addg (kb p.1).world (s.get p.1) p.2)) s
 
 /-- Grounding management of a connective (`_operational_bounds`, first-order branch).
 Returns the new state (rows created at world defaults), the operator groundings, and for each
@@ -165,12 +178,12 @@ def groundings (kb : FKB ι α) (i : ι) (down : Bool) (s : FState ι α) :
     FState ι α × Option (List Gr × List (List Gr)) :=
   let n := kb i
   if isHomogeneous n then
-    let gs := unionKeys ((n.ops.map fun j => (s j).keys) ++ (if down then [(s i).keys] else []))
+    let gs := unionKeys ((n.ops.map fun j => (s.get j).keys) ++ (if down then [(s.get i).keys] else []))
     let s1 := addAll kb s (n.ops.map fun j => (j, gs))
     let s2 := addAll kb s1 [(i, gs)]
     (s2, some (gs, n.ops.map fun _ => gs))
   else
-    let rels := (List.zip n.ops n.opmap).map fun p => (⟨p.2, (s p.1).keys⟩ : Rel)
+    let rels := (List.zip n.ops n.opmap).map fun p => (⟨p.2, (s.get p.1).keys⟩ : Rel)
     match foldJoin rels with
     | none => (s, none)
     | some j =>
@@ -218,12 +231,12 @@ def fUpConn (kb : FKB ι α) (i : ι) (s : FState ι α) : FState ι α × α :=
   | (s1, none) => (s1, 0)
   | (s1, some (ogs, per)) =>
     let items := (List.range ogs.length).filterMap fun k =>
-      let bs := List.zipWith (fun j g => Table.getD (kb j).world (s1 j) g) n.ops (rowsOf per k)
+      let bs := List.zipWith (fun j g => Table.getD (kb j).world (s1.get j) g) n.ops (rowsOf per k)
       if (bs.take 2).any (isContra n.alpha) then none else some (ogs.getD k [], fActUp n bs)
     let r := items.foldl (fun (acc : Table α × α) it =>
       let a := aggRow acc.1 it.1 .both it.2
-      (a.1, acc.2 + a.2)) (s1 i, 0)
-    (Function.update s1 i r.1, r.2)
+      (a.1, acc.2 + a.2)) (s1.get i, 0)
+    (s1.set i r.1, r.2)
 
 /-- merge the proposals that land on one operand row: each is aggregated against the previous
 bounds, then duplicates are combined by `(max L, min U)`, then written once -/
@@ -248,8 +261,8 @@ def fDownConn (kb : FKB ι α) (i : ι) (idx : Option Nat) (s : FState ι α) : 
   | (s1, some (ogs, per)) =>
     let items := (List.range ogs.length).filterMap fun k =>
       let gsk := rowsOf per k
-      let bs := List.zipWith (fun j g => Table.getD (kb j).world (s1 j) g) n.ops gsk
-      let ob := Table.getD n.world (s1 i) (ogs.getD k [])
+      let bs := List.zipWith (fun j g => Table.getD (kb j).world (s1.get j) g) n.ops gsk
+      let ob := Table.getD n.world (s1.get i) (ogs.getD k [])
       if (bs.take 2).any (isContra n.alpha) || isContra n.alpha ob then none
       else some (gsk, fActDown n ob bs)
     if items.isEmpty then (s1, 0) else
@@ -259,8 +272,8 @@ def fDownConn (kb : FKB ι α) (i : ι) (idx : Option Nat) (s : FState ι α) : 
             match it.1[p.1]?, it.2[p.1]? with
             | some g, some b => some (g, b)
             | _, _ => none
-          let w := writeMerged (acc.1 p.2) props
-          (Function.update acc.1 p.2 w.1, acc.2 + w.2)
+          let w := writeMerged (acc.1.get p.2) props
+          (acc.1.set p.2 w.1, acc.2 + w.2)
         else acc) (s1, 0)
 
 /-! ### first-order Not -/
@@ -269,25 +282,25 @@ def fUpNot (kb : FKB ι α) (i : ι) (s : FState ι α) : FState ι α × α :=
   match (kb i).ops with
   | [] => (s, 0)
   | j :: _ =>
-    let gs := (s j).keys
+    let gs := (s.get j).keys
     if gs.isEmpty then (s, 0) else
-      let t0 := Table.addg (kb i).world (s i) gs
+      let t0 := Table.addg (kb i).world (s.get i) gs
       let r := gs.foldl (fun (acc : Table α × α) g =>
-        let a := aggRow acc.1 g .both (negB (Table.getD (kb j).world (s j) g))
+        let a := aggRow acc.1 g .both (negB (Table.getD (kb j).world (s.get j) g))
         (a.1, acc.2 + a.2)) (t0, 0)
-      (Function.update s i r.1, r.2)
+      (s.set i r.1, r.2)
 
 def fDownNot (kb : FKB ι α) (i : ι) (s : FState ι α) : FState ι α × α :=
   match (kb i).ops with
   | [] => (s, 0)
   | j :: _ =>
-    let gs := (s i).keys
+    let gs := (s.get i).keys
     if gs.isEmpty then (s, 0) else
-      let t0 := Table.addg (kb j).world (s j) gs
+      let t0 := Table.addg (kb j).world (s.get j) gs
       let r := gs.foldl (fun (acc : Table α × α) g =>
-        let a := aggRow acc.1 g .both (negB (Table.getD (kb i).world (s i) g))
+        let a := aggRow acc.1 g .both (negB (Table.getD (kb i).world (s.get i) g))
         (a.1, acc.2 + a.2)) (t0, 0)
-      (Function.update s j r.1, r.2)
+      (s.set j r.1, r.2)
 
 /-! ### quantifiers -/
 
@@ -314,15 +327,15 @@ def fUpQuant (kb : FKB ι α) (i : ι) (s : FState ι α) : FState ι α × α :
   match n.ops with
   | [] => (s, 0)
   | j :: _ =>
-    let rows := s j
+    let rows := s.get j
     if rows.isEmpty then (s, 0) else
       let keysU := dedupKeepFirst (rows.map fun r => groupKey n.free r.g)
-      let t0 := Table.addg n.world (s i) keysU
+      let t0 := Table.addg n.world (s.get i) keysU
       let r := keysU.foldl (fun (acc : Table α × α) k =>
         let inst := (rows.filter fun r => groupKey n.free r.g == k).map (·.b)
         let a := aggRow acc.1 k (qSel n) (qUp (n.kind = .all) inst)
         (a.1, acc.2 + a.2)) (t0, 0)
-      (Function.update s i r.1, r.2)
+      (s.set i r.1, r.2)
 
 /-- `_Quantifier.downward`: the n-ary inverse of each group onto its instances. -/
 def fDownQuant (kb : FKB ι α) (i : ι) (s : FState ι α) : FState ι α × α :=
@@ -330,20 +343,20 @@ def fDownQuant (kb : FKB ι α) (i : ι) (s : FState ι α) : FState ι α × α
   match n.ops with
   | [] => (s, 0)
   | j :: _ =>
-    let rows := s j
+    let rows := s.get j
     if rows.isEmpty then (s, 0) else
       let keysU := dedupKeepFirst (rows.map fun r => groupKey n.free r.g)
       -- groups never evaluated before are created at the world default
-      let ti := Table.addg n.world (s i) keysU
-      let s0 := Function.update s i ti
+      let ti := Table.addg n.world (s.get i) keysU
+      let s0 := s.set i ti
       let props : List (Gr × Bounds α) := keysU.flatMap fun k =>
         let grp := rows.filter fun r => groupKey n.free r.g == k
         let self := Table.getD n.world ti k
         List.zip (grp.map (·.g)) (qDown (n.kind = .all) self (grp.map (·.b)))
       let r := props.foldl (fun (acc : Table α × α) p =>
         let a := aggRow acc.1 p.1 .both p.2
-        (a.1, acc.2 + a.2)) (s0 j, 0)
-      (Function.update s0 j r.1, r.2)
+        (a.1, acc.2 + a.2)) (s0.get j, 0)
+      (s0.set j r.1, r.2)
 
 /-! ### node-level calls, passes, infer -/
 
@@ -378,7 +391,7 @@ def runFCalls (kb : FKB ι α) : List (FCall ι) → FState ι α → FState ι 
     (t.1, r.2 + t.2)
 
 /-- `Model.shape[1]`: total number of stored groundings over the registered formulae -/
-def nGroundings (nodes : List ι) (s : FState ι α) : Nat := (nodes.map fun i => (s i).length).sum
+def nGroundings (nodes : List ι) (s : FState ι α) : Nat := (nodes.map fun i => (s.get i).length).sum
 
 structure FInferResult (ι α : Type) where
   state : FState ι α
@@ -402,6 +415,6 @@ def fInfer (kb : FKB ι α) (nodes : List ι) (up down : List (FCall ι)) (eps :
       ⟨t.state, t.steps + 1, diff + t.total, t.converged⟩
 
 def fHasContra (kb : FKB ι α) (nodes : List ι) (s : FState ι α) : Bool :=
-  nodes.any fun i => (s i).any fun r => isContra (kb i).alpha r.b
+  nodes.any fun i => (s.get i).any fun r => isContra (kb i).alpha r.b
 
 end LNN
